@@ -763,8 +763,10 @@ keep("P21", "is_ipv6: guard written positively",
         return not getattr(address, "scope_id", "")
     return True''')])
 
-keep("P22", "run: exit_code updated with `or`",
-     [(C, '''            exit_code |= _validate_instance(''', '''            exit_code = exit_code or _validate_instance(''')])
+# formerly listed as behaviour-preserving (P22) -- it is not: `or` short-circuits, so once one instance has failed the later ones
+# are loaded but never validated and their errors never reported.  Found by the CLI scenario table (R19.2/R19.4).
+brk("B64e", "run: exit_code updated with `or` (later instances are not validated once one failed)",
+    [(C, '''            exit_code |= _validate_instance(''', '''            exit_code = exit_code or _validate_instance(''')], {"C19": "R19."})
 
 keep("P23", "validator_for: test order swapped in the `or` chain",
      [(V, '''    if schema is True or schema is False or u"$schema" not in schema:''', '''    if schema is False or schema is True or u"$schema" not in schema:''')])
